@@ -68,6 +68,9 @@ impl FileStack {
                     let paths: Vec<_> = entries.flatten().map(|x| x.path()).collect();
                     self.add_files(&paths, reports);
                 }
+            } else if !path.exists() {
+                // A path that does not exist is reported whatever its extension.
+                reports.push(FileOsError { path: path.display().to_string() }.into_report());
             } else if let Some(extension) = path.extension() {
                 // Add Circom files to file stack.
                 if extension == "circom" {
